@@ -47,8 +47,15 @@ def trace_invariant(out):
     leaves = []
     comps = []
     for insn, addr, chunk, _blk in trace:
-        a = wait(addr)
-        b = wait(chunk)
+        try:
+            # everything the image is made of has been evaluated by now; a statement whose chunk still has to be computed (and
+            # possibly complains while doing so, outside any report scope) never made it into the address bookkeeping
+            sink = []
+            with driver.pd().reports.handle_reports(lambda *a_: sink.append(a_[1])):
+                a = wait(addr)
+                b = wait(chunk)
+        except Exception as ex:  # noqa
+            return f"statement {str(insn)[:60]!r}: its address or bytes could not be evaluated after the assembly had succeeded: {type(ex).__name__}: {str(ex)[:100]}"
         if not isinstance(b, (bytes, bytearray)):
             return f"chunk of {insn!r} is {type(b).__name__}"
         off = a - base
